@@ -128,6 +128,7 @@ def gen_pos(rng, n_ops):
     sh = RefPos()
     gp = {}
     nxt = itertools.count(1)
+    opened = False
     for _ in range(n_ops):
         live = sh.objs()
         r = rng.random()
@@ -180,15 +181,31 @@ def gen_pos(rng, n_ops):
                 lines.append(f"pos 0 gp {o} {gp[o]}")
             lines.append("pos 0 reschedall")
             sh.reschedule_all(lambda o: gp.get(o, 0))
-        elif r < 0.90:
+        elif r < 0.885:
             lines.append("pos 0 " + rng.choice(["iter", "len", "bool", f"in {target()}"]))
+        elif r < 0.90:
+            lines.append(f"pos 0 iteropen {rng.randint(1, 3)}")
+            opened = True
         elif r < 0.92:
             lines.append("pos 0 clear")
             sh.clear()
         else:
             lines.append("pos 0 drain")
     lines.append("pos 0 drain")
+    if opened:
+        lines += ["pos 0 len", "pos 0 iterclose", "pos 0 drain"]
     return lines
+
+
+def to_model(ln):
+    """the Lean driver has no notion of an iterator object: an iteration kept open is an `iter`
+    whose first k items are compared, closing it is a no-op"""
+    t = ln.split()
+    if len(t) > 2 and t[2] == "iteropen":
+        return f"{t[0]} {t[1]} iter"
+    if len(t) > 2 and t[2] == "iterclose":
+        return f"{t[0]} {t[1]} len"
+    return ln
 
 
 # ---------------------------------------------------------------------------------------
@@ -411,6 +428,17 @@ def oracle_pos(lines, outs, tags):
             exp = f"b {1 if len(q) else 0}"
         elif op == "in":
             exp = f"b {1 if q.has(int(a[0])) else 0}"
+        elif op == "iterclose":
+            exp = "ok"
+        elif op == "iteropen":
+            tags.add("iterator-kept-open")
+            objs = [int(x) for x in out[5:].split(",") if x] if out.startswith("list") else None
+            k = min(int(a[0]), len(q))
+            if objs is None or len(objs) != k or len(set(objs)) != k or any(not q.has(o) for o in objs):
+                if judged:
+                    return idx, f"the first {k} entries of the pop order", out, "partial iteration returned something else"
+                return None
+            continue
         elif op in ("iter", "drain"):
             objs = [int(x) for x in out[5:].split(",") if x] if out.startswith("list") else None
             if objs is None:
@@ -458,7 +486,7 @@ def shrink(lines, only_lt=False):
     return head + core.ddmin(body, fails)
 
 
-OPCLASS = {"append": "append", "appendpri": "append", "add": "add", "extend": "add",
+OPCLASS = {"iteropen": "iterate-partially", "iterclose": None, "append": "append", "appendpri": "append", "add": "add", "extend": "add",
            "drain": None, "popleft": "pop", "iter": None, "pop": "pop", "popitem": "pop",
            "peek": None, "peekitem": None, "len": None, "bool": None, "in": None, "items": None,
            "sorteditems": None, "layout": None, "seq": None, "new": None, "gp": None,
@@ -497,7 +525,7 @@ def explore(ctx, cases, only_lt=False, label="", oracle=True):
                           theorem="Asynkit.C17.pq_refines_spec / pos_refines_list")
         spans.append((len(all_lines) + 1, len(lines)))
         all_lines.append("reset")
-        all_lines.extend(lines)
+        all_lines.extend(to_model(ln) for ln in lines)
         reals.append(outs)
     if not ctx.lean_ok or not cases:
         return
@@ -513,6 +541,11 @@ def explore(ctx, cases, only_lt=False, label="", oracle=True):
                 layout_n += 1
                 layout_ok += r == m
                 continue
+            if ln.split()[2] == "iterclose":
+                continue
+            if ln.split()[2] == "iteropen":
+                k = len([x for x in r[5:].split(",") if x]) if r.startswith("list") else 0
+                m = "list " + ",".join([x for x in m[5:].split(",") if x][:k]) if m.startswith("list") else m
             if r != m:
                 if reported < 3:
                     ctx.disagreement(f"{label}model and implementation answer `{ln}` differently",
